@@ -129,6 +129,11 @@ fn forms(p: Prof, kind: Kind, a: &str, b: &str) -> Vec<(&'static str, Result<Str
     })
 }
 
+/// the same reference call made on a brand-new thread: no thread-local state of earlier calls can reach it
+fn fresh_on_new_thread(p: Prof, kind: Kind, a: &str, b: &str) -> Result<String, RErr> {
+    std::thread::scope(|s| s.spawn(|| fresh(p, kind, a, b)).join().expect("reference thread"))
+}
+
 /// the reference for one call: a fresh instance, borrowed arguments
 fn fresh(p: Prof, kind: Kind, a: &str, b: &str) -> Result<String, RErr> {
     match kind {
@@ -148,7 +153,9 @@ fn kind_name(k: Kind) -> &'static str {
 
 pub fn check_forms(p: Prof, kind: Kind, a: &str, b: &str, l: &mut Local) -> Check {
     let case = || json!({"op": "api_forms", "profile": p.name(), "call": kind_name(kind), "a": jstr(a), "b": jstr(b)});
-    let reference = guard(|| fresh(p, kind, a, b)).map_err(|pn| Violation::new(case(), "no panic", pn))?;
+    // for every 8th case the reference is computed on a brand-new thread (pristine thread-local state)
+    let new_thread = l.cases % 8 == 0;
+    let reference = guard(|| if new_thread { fresh_on_new_thread(p, kind, a, b) } else { fresh(p, kind, a, b) }).map_err(|pn| Violation::new(case(), "no panic", pn))?;
     let all = guard(|| forms(p, kind, a, b)).map_err(|pn| Violation::new(case(), "no panic", pn))?;
     l.evals_n(all.len() as u64 + 1);
     for (name, r) in &all {
@@ -185,7 +192,9 @@ pub fn check_history(h: &[Step], l: &mut Local) -> Check {
         let all = forms(p, kind, a, b);
         let hist: Vec<&(&'static str, Result<String, RErr>)> = all.iter().filter(|(n, _)| !n.starts_with("fresh")).collect();
         let (name, got) = hist[*fi % hist.len()];
-        let want = fresh(p, kind, a, b);
+        // "the same call on a fresh instance", made on a brand-new thread so that it cannot share thread-local state
+        // with the history
+        let want = fresh_on_new_thread(p, kind, a, b);
         l.evals_n(2);
         if *got != want {
             return Err(Violation::new(
@@ -394,7 +403,7 @@ pub fn run(run: &Run) {
          default(), one long-lived instance per thread, one instance shared by all 16 threads, static PrecisFastInvocation} x argument form {&str, String, \
          Cow::Borrowed, Cow::Owned; for compare (&str,&str), (String,String), (&String,&str), (Cow,Cow)} while 16 threads run concurrently; (b) histories: \
          proptest sequences of up to 40 calls over a small input pool (so inputs recur after other profiles' calls) on long-lived/shared/static instances, \
-         each step compared with the same call on a fresh instance; (c) first-use race: the checker re-executes itself N times (24 quick / 600 thorough, one child at a time); in each child 16 threads wait \
+         each step compared with the same call on a fresh instance made on a brand-new thread (so that thread-local state of the history cannot reach the reference); (c) first-use race: the checker re-executes itself N times (24 quick / 600 thorough, one child at a time); in each child 16 threads wait \
          on a barrier and make their very first library calls through the static API (a different profile per thread), followed by 240 generated calls, then a second phase in which 12 threads, kept together by a spin barrier, make the SAME first-time call at the same instant \
          for each of a few thousand one-character inputs (characters with decompositions); results \
          are compared with single-threaded fresh-instance results computed afterwards. Oracle: differential equality of results (content of Cow, error \
@@ -405,7 +414,7 @@ pub fn run(run: &Run) {
     run.prop("api_forms", run.pick(150_000, 6_000_000), || (0..4usize).prop_flat_map(|pi| (Just(pi), 0..3usize, strings_for(PROFS[pi]), strings_for(PROFS[pi]))), |(pi, ki, a, b), l| {
         check_forms(PROFS[*pi], KINDS[*ki], a, b, l)
     });
-    run.prop("histories", run.pick(8_000, 300_000), history_strategy, |h, l| check_history(h, l));
+    run.prop("histories", run.pick(3_000, 120_000), history_strategy, |h, l| check_history(h, l));
     run.par("fingerprint_collision_histories", true, |tid, _n, l| {
         if tid != 0 {
             return;
@@ -413,7 +422,7 @@ pub fn run(run: &Run) {
         for (_, a, b) in crate::gens::fingerprint_collisions().iter() {
             for pi in 0..4usize {
                 for ki in 0..3usize {
-                    for fi in 0..13usize {
+                    for fi in [0usize, 5, 9, 12] {
                         let h: Vec<Step> = vec![(pi, ki, fi, a.clone(), a.clone()), (pi, ki, fi, b.clone(), b.clone()), (pi, ki, fi, a.clone(), b.clone()), ((pi + 1) % 4, ki, fi, b.clone(), a.clone())];
                         l.cases += 1;
                         if let Err(v) = check_history(&h, l) {
